@@ -90,6 +90,7 @@ class Result:
         self.panics = set()  # blocks whose assert definitely fails / diverging calls
         self.assigns = {}    # (bb, idx) -> set of values assigned there (None = unknown)
         self.states = 0
+        self.forks = []      # blocks where a switch on an unknown value sent the exploration down >1 edge
 
     def callees(self):
         return {c.name for _, c, _ in self.calls}
@@ -403,6 +404,13 @@ class PE:
             if t["k"] == "goto":
                 bb = t["t"]
                 continue
+            if t["k"] == "call" and t.get("t") is not None and bb in pb.call_at:
+                # constructor calls in promoted constants (RangeInclusive::new(' ', '~') ...)
+                c = pb.call_at[bb]
+                argvals = tuple(sub.operand(env, a) for a in c.args)
+                sub._write(env, c.dest, sub.builtin(env, c, argvals))
+                bb = t["t"]
+                continue
             break
         v = env.get(0)
         if v is not None and v[0] == "ref":
@@ -634,6 +642,8 @@ class PE:
                     nxt = [tgt]
                 else:
                     nxt = body.succ(bb)
+                    if len(nxt) > 1:
+                        res.forks.append(bb)
             elif k == "assert":
                 v = self.operand(env, t["cond"])
                 if v is not None and v[0] == "b" and v[1] != t["expected"]:
